@@ -8,25 +8,25 @@ P = 'C04'
 def plan(tier):
     th = tier == 'thorough'
     qs = [
-        Q(P, 1, ['***', '***']),                       # every pair of tokens up to 3 bytes
-        Q(P, 1, ['*****']),                            # dash-heavy single tokens up to 5 bytes: ---x, --=x, -=, long bundles
-        Q(P, 3, ['***', '***']),                       # required options, greedy, unlimited positionals
-        Q(P, 2, ['***']),                              # reversible toggle, option with default, no positionals
-        Q(P, 2, ['--no-?'], wit=(W_OK, W_ERR)),        # --no-<any name>
-        Q(P, 2, ['--?', '--no-?']), Q(P, 2, ['--no-?', '-*']),
+        Q(P, 1, ['****']),                             # every single token up to 4 bytes: ---x, --=x, -=, -, bundles, =forms
+        Q(P, 1, ['--o', '***']), Q(P, 1, ['-q', '***']),   # value-taking option followed by any token (value present / option-like / --)
+        Q(P, 1, ['--', '***'], wit=(W_OK,)),           # anything after --
+        Q(P, 3, ['****'], wit=(W_ERR,)),                # required options, greedy, unlimited positionals: never succeeds with one token
+        Q(P, 3, ['-o=*', '--m', '***']),
+        Q(P, 2, ['****']),                             # reversible toggle, option with default, no positionals
+        Q(P, 2, ['--no-?']),                           # --no-<any name>
+        Q(P, 4, ['****']),
         Q(P, 5, [], env={0: '***'}, wit=(W_OK,)),      # environment: option value is any string
         Q(P, 5, [], env={1: '***'}, wit=(W_OK,)),      # multi-option value list
         Q(P, 5, [], env={2: '***'}),                   # toggle word
         Q(P, 7, ['***'], env={0: '**'}),               # required option: command line x environment
     ]
     if th:
-        qs += [Q(P, 1, ['***', '***', '***'], timeout=3000, est_gb=8), Q(P, 1, ['****', '****'], timeout=3000, est_gb=8),
-               Q(P, 3, ['***', '***', '**'], timeout=3000, est_gb=8), Q(P, 4, ['***', '***', '**'], timeout=3000, est_gb=8),
-               Q(P, 9, ['***', '***'], timeout=3000), Q(P, 12, ['***', '***']), Q(P, 10, ['****']), Q(P, 11, ['***', '***']),
-               Q(P, 6, ['***'], env={0: '**', 2: '**'}), Q(P, 8, [], env={0: '****'}), Q(P, 5, ['**'], env={0: '**', 1: '**', 2: '**'}),
-               Q(P, 2, ['--no-?', '--?', '**']), Q(P, 5, [], env={2: '*******'}, timeout=3000)]
-    if os.environ.get('EXPERIMENT'):
-        qs = [Q(P, 1, ['**', '**'], name='x22'), Q(P, 1, ['***', '*'], name='x31'), Q(P, 1, ['*', '***'], name='x13'), Q(P, 1, ['-*', '***'], name='xd13'), Q(P, 1, ['***', '-*'], name='x3d1'),
-              Q(P, 1, ['?', '?'], name='xs1s1'), Q(P, 1, ['-?', '?'], name='xdss')]
+        H = dict(timeout=3400, est_gb=10)
+        qs += [Q(P, 1, ['*****']), Q(P, 1, ['***', '***'], **H), Q(P, 3, ['***', '***'], **H), Q(P, 2, ['--?', '--no-?'], **H), Q(P, 2, ['--no-?', '-*'], **H),
+               Q(P, 1, ['-x', '***'], **H), Q(P, 1, ['***', 'v'], **H), Q(P, 4, ['***', '**'], **H), Q(P, 9, ['***', '**'], **H),
+               Q(P, 12, ['****']), Q(P, 10, ['****']), Q(P, 11, ['****']), Q(P, 9, ['****']),
+               Q(P, 6, ['***'], env={0: '**', 2: '**'}), Q(P, 8, [], env={0: '****'}), Q(P, 5, ['**'], env={0: '**', 1: '**', 2: '**'}, **H),
+               Q(P, 5, [], env={2: '*******'}, timeout=3000)]
     corpus = base_corpus(P)
     return Runner(P, tier, [parser_unit('parser', qs, corpus)], bounds=BOUNDS_NOTE, outside=OUTSIDE, assumptions=ASSUME)
